@@ -69,23 +69,27 @@ Fixpoint split_labels (ts : list tok) (cur : label) : option (list label) :=
   | TDot :: r => option_map (cons cur) (split_labels r [])
   end.
 
+Fixpoint list_eqb_N (a b : bytes) : bool :=
+  match a, b with
+  | [], [] => true
+  | x :: a', y :: b' => (x =? y) && list_eqb_N a' b'
+  | _, _ => false
+  end.
+
 Definition is_nil_l {A} (l : list A) : bool := match l with [] => true | _ => false end.
 
 Definition spec_of_text (s : bytes) : option (list label) :=
-  match s with
-  | [46] => Some []
-  | _ =>
-    if forallb (fun c => c <? 128) s then
-      match tokenize s with
-      | Some ts =>
-        match split_labels ts [] with
-        | Some ls => if negb (is_nil_l ls) && wf_nameb ls then Some ls else None
-        | None => None
-        end
+  if list_eqb_N s [46] then Some []
+  else if forallb (fun c => c <? 128) s then
+    match tokenize s with
+    | Some ts =>
+      match split_labels ts [] with
+      | Some ls => if negb (is_nil_l ls) && wf_nameb ls then Some ls else None
       | None => None
       end
-    else None
-  end.
+    | None => None
+    end
+  else None.
 
 (* ---- equality, hashing, canonical order: RFC 1035 §2.3.3, RFC 4343 §3, RFC 4034 §6.1 ----------- *)
 
